@@ -365,7 +365,7 @@ static void runCase(Sink &sink, const Args &a, long cs)
     ompl::RNG::setSeed(caseSeed(a, cs, 1) % 1000000000 + 1);
     const int manKind = (int)rng.ui(7);
     const int spaceKind = (int)rng.ui(3);
-    const int plannerKind = (int)rng.ui(5);
+    int plannerKind = (int)rng.ui(5);
     auto man = makeManifold(rng, manKind);
     const int n = (int)man->getAmbientDimension();
     const double delta = rng.logUni(0.01, 0.5), lambda = rng.uni(1.5, 5), tol = rng.logUni(1e-6, 1e-3);
@@ -637,6 +637,13 @@ static void runCase(Sink &sink, const Args &a, long cs)
                     if (spaceKind > 0) css->as<ob::AtlasStateSpace>()->anchorChart(goal.get());
                     thr = std::max(thr, std::min(0.15, 1.5 * dg));
                     sink.count("c16_plans_goal_next_to_bounds_cut");
+                    // the planners that take sampler output as vertices (roadmap / batch planners) are the ones for which an
+                    // off-manifold sample can end up on a path: two thirds of these plans use one of them
+                    if (rng.coin(0.66))
+                    {
+                        plannerKind = rng.coin(0.6) ? 2 : 4;
+                        sink.count("c16_plans_goal_next_to_bounds_cut_sample_vertex_planner");
+                    }
                     break;
                 }
             }
